@@ -108,6 +108,11 @@ def BEvSt.stack (l : List (EvSt P (List R) X R)) : BEvSt P X R :=
   ⟨BArSt.stack (l.map (·.ar)), l.map (·.mReward), l.map (·.emReward), l.map (·.emMetrics),
    l.map (·.active), l.map (·.episodeSteps)⟩
 
+/-- stacking member transitions into the batched layout -/
+def BTransition.stack (l : List (Transition (List R) A R)) : BTransition R A :=
+  ⟨l.map (·.observation), l.map (·.action), l.map (·.reward), l.map (·.discount),
+   l.map (·.nextObservation), l.map (·.truncation)⟩
+
 section batches
 variable [Zero R] [One R] [Add R] [Sub R] [NatCast R] [LE R] [DecidableLE R] [DecidableEq R]
 
